@@ -11,6 +11,8 @@ def sig_of(e):
     c = e.get('cfg', {})
     if e['ev'] == 'basis':
         return "poly:basis:%s:%s" % (c.get('a'), c.get('b'))
+    if e['ev'] in ('factor', 'peval', 'pevalmod'):
+        return "poly:tool:%s:%s:deg=%s:%s" % (e['ev'], e.get('basis', 'mono'), len(e.get('p', [])) - 1, e.get('parity', e.get('P', '-')))
     return "poly:%s:%s:%s:deg=%s:%s:inv=%s" % (e['set'], c.get('basis'), c.get('mode'), c.get('deg'), c.get('parity'), c.get('invariant'))
 
 
@@ -42,8 +44,8 @@ def run_polyeval(ctx, frame=False):
     ]
     if ctx.replay:
         rp = json.load(open(ctx.replay))
-        cfgs = [json.dumps(rp['event']['cfg'])]
-        if rp['event']['ev'] == 'basis':
+        cfgs = [json.dumps(rp['event']['cfg'])] if 'cfg' in rp['event'] else []
+        if rp['event']['ev'] in ('basis', 'factor', 'peval', 'pevalmod'):
             cfgs = []
     else:
         sets = json.loads(vrun(['c13', 'sets'])[0].strip().splitlines()[0])
@@ -91,7 +93,7 @@ def run_polyeval(ctx, frame=False):
         ctx.add_trace_stats(stats2, len(known_evs))
         rej += rej2
     ctx.cov['programs'] = ctx.cov.get('programs', 0) + len(evs)
-    nd = len(set(json.dumps(e['cfg'], sort_keys=True) for e in evs))
+    nd = len(set(json.dumps(e.get('cfg', e.get('p')), sort_keys=True) for e in evs))
     if frame:
         ctx.cov['distinct_nontrivial'] = ctx.cov.get('distinct_nontrivial', 0) + nd
         ctx.cov['rule'] = ctx.cov.get('rule', '') + " polynomial evaluations: one event per shape of spec/PolyEvalGen.tla, validated against FrameOK of spec/PolyEval.tla."
